@@ -58,7 +58,7 @@ type aTx struct {
 	Xs    aXS        `json:"xs"`
 	Id    string     `json:"id"`  // ok | stale
 	Ins   []aIn      `json:"ins"` // owners of the inputs
-	Ctr   string     `json:"ctr"` // none | vprog | pay
+	Ctr   string     `json:"ctr"` // none | vprog | pay | mread (a $vprog call that reads the key written by the transaction the regulator marks)
 	Rich  bool       `json:"rich"`
 }
 
@@ -78,8 +78,19 @@ func flipByte(b []byte) []byte {
 
 func (w *world) priv(k string) *ecdsa.PrivateKey { return w.key[k].Priv }
 
-// concretise renders the abstract transaction as a real protobuf transaction on the fixture chain.
+// concretise renders the abstract transaction as a real protobuf transaction on the fixture chain; an input that
+// refers to "the marked transaction" names the one whose mark takes effect below the next block's height.
 func (w *world) concretise(t *aTx, tag string) (*pb.Transaction, error) {
+	return w.concretiseAt(t, tag, "above")
+}
+
+// concretiseAt: ... the marked transaction whose effective height stands in relation mh to the height of the next
+// block ("above": the block is higher, "at", "below").
+func (w *world) concretiseAt(t *aTx, tag string, mh string) (*pb.Transaction, error) {
+	mouts, okMh := w.moutsAt[mh]
+	if !okMh {
+		return nil, fmt.Errorf("unknown relation %q of block height and effective height of the mark", mh)
+	}
 	tx := &pb.Transaction{Version: int32(t.Ver), Nonce: "c07-" + tag, Timestamp: 1600000000 + w.sd, Desc: []byte("c07 " + tag),
 		Initiator: w.name(t.Init)}
 	for _, u := range t.Auth {
@@ -95,7 +106,7 @@ func (w *world) concretise(t *aTx, tag string) (*pb.Transaction, error) {
 		var ti *protos.TxInput
 		src := w.outs
 		if in.Mk {
-			src = w.mouts
+			src = mouts
 		}
 		if in.Own == "C" && in.Cj && t.Ctr == "pay" && used["C!"] == 0 {
 			ti = proto.Clone(payIn).(*protos.TxInput)
@@ -129,6 +140,10 @@ func (w *world) concretise(t *aTx, tag string) (*pb.Transaction, error) {
 		tx.ContractRequests = w.vprog.reqs
 		tx.TxInputsExt = xmodel.GetTxInputs(w.vprog.rw.RSet)
 		tx.TxOutputsExt = xmodel.GetTxOutputs(w.vprog.rw.WSet)
+	case "mread":
+		tx.ContractRequests = w.mread.reqs
+		tx.TxInputsExt = xmodel.GetTxInputs(w.mread.rw.RSet)
+		tx.TxOutputsExt = xmodel.GetTxOutputs(w.mread.rw.WSet)
 	case "pay":
 		tx.ContractRequests = w.pay.reqs
 		tx.TxInputsExt = xmodel.GetTxInputs(w.pay.rw.RSet)
